@@ -1,1 +1,254 @@
-/- C18 — theorems (placeholder until the property is built). -/
+/-
+  C18 — Runs are reproducible and side-effect free whatever the threading (the part that is logic).
+
+  (i)   every `prange` nest of the source (regenerated table) is a map over its own cells, and such a
+        map gives the same result under every schedule (`order_independent`, for any permutation of the
+        iterations — unbounded);
+  (ii)  every machine attribute a run callback reads is written by `run_prepare` or by a callback that
+        necessarily ran before it in the same run, so a run does not depend on leftovers of a previous
+        run (`rerun_agree`, for any effect list — unbounded);
+  (iii) the matching-cost classes that share one class-level schema dictionary all assign the same
+        keys before validating, so the order in which classes were used cannot leak into a check.
+  Numba's scheduler, the CPU memory model and floating-point reassociation are outside the model:
+  that half is sampled by the harness (thread counts, parallel on/off, repeated runs).
+-/
+import PandoraModel.Model.Threading
+import PandoraModel.Model.Wiring
+import PandoraModel.Generated.Threading
+import PandoraModel.Generated.Wiring
+import PandoraModel.Generated.Transitions
+
+namespace Pandora.C18
+open Pandora.Threading
+
+/-! ### (i) parallel loops -/
+
+/-- every parallel nest of the numba kernels writes own cells only (or constants nobody reads, or the
+    white-listed segment ranges) and reads only own cells of the arrays it writes -/
+theorem prange_nests_safe : Generated.Threading.nests.all safeNest = true := by decide
+
+/-- the kernels covered: the nine parallel functions named in the property's anchors -/
+theorem prange_nests_listed :
+    (Generated.Threading.nests.map (·.func)).eraseDups =
+      ["loop_refinement", "loop_approximate_refinement", "compute_ambiguity",
+       "compute_ambiguity_and_sampled_ambiguity", "compute_risk", "compute_risk_and_sampled_risk",
+       "compute_interval_bounds", "create_connected_graph", "graph_regularization"] := by decide
+
+/-- the only stores that are not own-cell stores -/
+theorem non_own_cell_stores :
+    (Generated.Threading.nests.flatMap fun n =>
+        (n.stores.filter fun s => !ownCell s).map fun s => (n.func, s.array)).eraseDups =
+      [("create_connected_graph", "connection_graph"),
+       ("graph_regularization", "interval_inf_reg"), ("graph_regularization", "interval_sup_reg"),
+       ("graph_regularization", "mask_regularization")] := by decide
+
+theorem step_comm {ι β : Type} [DecidableEq ι] (body : ι → β → β) (a : ι → β) (x y : ι) :
+    (fun j => if j = y then body y ((fun j => if j = x then body x (a x) else a j) y)
+              else (fun j => if j = x then body x (a x) else a j) j)
+    = (fun j => if j = x then body x ((fun j => if j = y then body y (a y) else a j) x)
+              else (fun j => if j = y then body y (a y) else a j) j) ∨ x = y := by
+  by_cases h : x = y
+  · exact Or.inr h
+  · left
+    funext j
+    have h' : ¬ y = x := fun e => h e.symm
+    by_cases hx : j = x <;> by_cases hy : j = y <;> simp_all
+
+/-- **Own-cell parallel loops are schedule independent**: whatever order the iterations run in (any
+    permutation, any number of iterations), the resulting array is the same. -/
+theorem order_independent {ι β : Type} [DecidableEq ι] (body : ι → β → β) (o1 o2 : List ι)
+    (hp : o1.Perm o2) (a : ι → β) : runOrder body o1 a = runOrder body o2 a := by
+  unfold runOrder
+  apply List.Perm.foldl_eq' hp
+  intro x _ y _ z
+  rcases step_comm body z x y with h | h
+  · exact h
+  · subst h; rfl
+
+/-- the result of an own-cell loop, cell by cell: iterations that run once rewrite their own cell -/
+theorem runOrder_cell {ι β : Type} [DecidableEq ι] (body : ι → β → β) :
+    ∀ (o : List ι) (a : ι → β) (j : ι), o.Nodup →
+      runOrder body o a j = if j ∈ o then body j (a j) else a j := by
+  intro o
+  induction o with
+  | nil => intro a j _; simp [runOrder]
+  | cons i is ih =>
+    intro a j hnd
+    have hnd' := (List.nodup_cons.mp hnd)
+    have := ih (fun j => if j = i then body i (a i) else a j) j hnd'.2
+    simp only [runOrder, List.foldl_cons] at this ⊢
+    rw [this]
+    by_cases hji : j = i
+    · subst hji; simp [hnd'.1]
+    · simp [hji]
+
+/-- **Constant stores into cells nobody reads are schedule independent** (`connection_graph[i, k] =
+    connection_graph[k, i] = True`): the result only depends on which cells some iteration names. -/
+theorem const_store_cell {ι κ β : Type} [DecidableEq κ] (cells : ι → List κ) (c : β) :
+    ∀ (o : List ι) (a : κ → β) (j : κ),
+      runConst cells c o a j = if o.any (fun i => (cells i).contains j) then c else a j := by
+  intro o
+  induction o with
+  | nil => intro a j; simp [runConst]
+  | cons i is ih =>
+    intro a j
+    have := ih (fun j => if (cells i).contains j then c else a j) j
+    simp only [runConst, List.foldl_cons] at this ⊢
+    rw [this, List.any_cons]
+    cases h1 : (cells i).contains j <;> cases h2 : is.any (fun i => (cells i).contains j) <;> simp
+
+theorem const_store_order_independent {ι κ β : Type} [DecidableEq κ] (cells : ι → List κ) (c : β)
+    (o1 o2 : List ι) (hp : o1.Perm o2) (a : κ → β) : runConst cells c o1 a = runConst cells c o2 a := by
+  funext j
+  rw [const_store_cell, const_store_cell]
+  have : o1.any (fun i => (cells i).contains j) = o2.any (fun i => (cells i).contains j) := by
+    rw [Bool.eq_iff_iff]
+    simp only [List.any_eq_true]
+    constructor
+    · rintro ⟨i, hi, h⟩; exact ⟨i, hp.subset hi, h⟩
+    · rintro ⟨i, hi, h⟩; exact ⟨i, hp.symm.subset hi, h⟩
+  rw [this]
+
+/-! ### (ii) no leftovers: what a run reads, it (or `run_prepare`) wrote before -/
+
+open Pandora.Wiring in
+/-- two stores agree on a set of attributes -/
+def AgreeOn {V : Type} (names : List String) (s1 s2 : Store V) : Prop := ∀ n ∈ names, s1 n = s2 n
+
+open Pandora.Wiring in
+theorem assignFrom_agree {V : Type} (f : Nat → V) : ∀ (ts : List String) (i : Nat) (s1 s2 : Store V) (n : String),
+    (n ∈ ts ∨ s1 n = s2 n) → assignFrom s1 f i ts n = assignFrom s2 f i ts n := by
+  intro ts
+  induction ts with
+  | nil => intro i s1 s2 n h; simpa [assignFrom] using h
+  | cons t ts ih =>
+    intro i s1 s2 n h
+    simp only [assignFrom]
+    apply ih
+    by_cases hm : n ∈ ts
+    · exact Or.inl hm
+    · right
+      by_cases hnt : n = t
+      · simp [hnt]
+      · simp only [hnt, if_false]
+        rcases h with h | h
+        · simp only [List.mem_cons] at h
+          rcases h with h | h
+          · exact absurd h hnt
+          · exact absurd h hm
+        · exact h
+
+open Pandora.Wiring in
+/-- one effect whose arguments are all agreed upon: afterwards the stores also agree on its targets -/
+theorem exec_agree {V : Type} (sem : Sem V) (e : Effect) (names : List String) (s1 s2 : Store V)
+    (hargs : ∀ a ∈ e.args, a ∈ names) (h : AgreeOn names s1 s2) :
+    AgreeOn (e.targets ++ names) (exec sem e s1) (exec sem e s2) := by
+  intro n hn
+  unfold exec
+  have hmap : e.args.map s1 = e.args.map s2 :=
+    List.map_congr_left (fun a ha => h a (hargs a ha))
+  simp only [hmap]
+  apply assignFrom_agree
+  simp only [List.mem_append] at hn
+  rcases hn with hn | hn
+  · exact Or.inl hn
+  · exact Or.inr (h n hn)
+
+open Pandora.Wiring in
+/-- every effect of the list reads only attributes that are agreed upon initially or were written by
+    an earlier effect of the list -/
+def ReadsInitialised : List Effect → List String → Bool
+  | [], _ => true
+  | e :: es, names => e.args.all (fun a => names.contains a) && ReadsInitialised es (e.targets ++ names)
+
+open Pandora.Wiring in
+def allTargets : List Effect → List String
+  | [] => []
+  | e :: es => allTargets es ++ e.targets
+
+open Pandora.Wiring in
+/-- **A run does not depend on leftovers.** Two machines that agree on what `run_prepare` sets (and on
+    the check-phase attributes) and execute the same effects, each of which reads only what was
+    agreed upon or written earlier in the run, end up agreeing on everything the run wrote — whatever
+    else their attributes contained before. -/
+theorem rerun_agree {V : Type} (sem : Sem V) : ∀ (es : List Effect) (names : List String) (s1 s2 : Store V),
+    ReadsInitialised es names = true → AgreeOn names s1 s2 →
+    AgreeOn (allTargets es ++ names) (execs sem es s1) (execs sem es s2) := by
+  intro es
+  induction es with
+  | nil => intro names s1 s2 _ h; simpa [allTargets, execs] using h
+  | cons e es ih =>
+    intro names s1 s2 hr h
+    simp only [ReadsInitialised, Bool.and_eq_true, List.all_eq_true, List.contains_eq_mem,
+      decide_eq_true_eq] at hr
+    have h1 := exec_agree sem e names s1 s2 hr.1 h
+    have h2 := ih (e.targets ++ names) _ _ hr.2 h1
+    intro n hn
+    simp only [execs, List.foldl_cons]
+    apply h2
+    simp only [allTargets, List.mem_append] at hn ⊢
+    rcases hn with (hn | hn) | hn
+    · exact Or.inl hn
+    · exact Or.inr (Or.inl hn)
+    · exact Or.inr (Or.inr hn)
+
+/-- attributes set outside the run phase that the run callbacks may read: `right_disp_map` and `step`
+    come from the check phase (or keep their constructor defaults) -/
+def checkPhaseAttrs : List String := ["right_disp_map", "step"]
+
+/-- what must have been written in this run before a callback can fire, by the state its transition
+    starts from (C01: `cost_volume` is only reachable through the matching cost step, `disp_map` only
+    through the disparity step) -/
+def guaranteedBefore (cb : String) : List String :=
+  let src := (Generated.transitionsRun.filter (fun t => t.after.contains cb || t.prepare.contains cb)).map (·.source)
+  let w (name : String) : List String :=
+    (Generated.Threading.callbackAttrs.filter (fun c => c.name == name)).flatMap (·.writes)
+  -- `prepare` callbacks of the transition run before its `after` callbacks
+  let samePrepare := (Generated.transitionsRun.filter (fun t => t.after.contains cb)).flatMap (·.prepare)
+  let pre := samePrepare.flatMap w
+  if src.all (· == "begin") then pre
+  else if src.all (· == "cost_volume") then pre ++ w "matching_cost_prepare" ++ w "matching_cost_run"
+  else pre ++ w "matching_cost_prepare" ++ w "matching_cost_run" ++ w "disparity_run"
+
+/-- every attribute a run callback reads is written by `run_prepare` (on every path; for
+    `run_multiscale`, which only fires when there are several scales, on the multi-scale path), or by
+    a callback that necessarily ran earlier in the same run, or by the callback itself before the read
+    (`matching_cost_prepare` creates `matching_cost_`), or is a check-phase attribute -/
+theorem run_reads_initialised :
+    Generated.Threading.callbackAttrs.all (fun c =>
+      c.reads.all (fun a =>
+        Generated.Threading.prepareAlways.contains a
+        || checkPhaseAttrs.contains a
+        || (guaranteedBefore c.name).contains a
+        || (c.name == "run_multiscale" && Generated.Threading.prepareMulti.contains a)
+        || (c.name == "matching_cost_prepare" && (a == "matching_cost_" || a == "left_cv" || a == "right_cv")))) = true := by
+  decide
+
+open Pandora.Wiring in
+/-- the same fact on the data-flow effects of every callback (the form `rerun_agree` consumes): with
+    what `run_prepare`, the check phase and the necessarily-earlier callbacks provide, every effect of
+    the callback reads only initialised attributes -/
+theorem callback_effects_initialised :
+    Generated.Wiring.callbacks.all (fun cb =>
+      ReadsInitialised (effectsOf cb true true)
+        (Generated.Threading.prepareAlways ++ checkPhaseAttrs ++ guaranteedBefore cb.name
+          ++ (if cb.name == "run_multiscale" then Generated.Threading.prepareMulti else []))) = true := by
+  decide
+
+/-! ### (iii) the class-level schema dictionary shared by the matching-cost classes -/
+
+/-- every matching-cost class overwrites the same keys of the shared dictionary before validating, and
+    none of them touches the base keys: whichever class ran before, the validated schema is the same -/
+theorem shared_schema_keys_uniform :
+    Generated.Threading.schemaClassKeys.all (fun p => p.2 == ["matching_cost_method", "window_size"]) = true
+    ∧ Generated.Threading.schemaClassKeys.map (·.1) = ["SadSsd", "Census", "Zncc"]
+    ∧ Generated.Threading.schemaBaseKeys.all (fun k => k != "matching_cost_method" && k != "window_size") = true := by
+  decide
+
+/-! ### Non-vacuity -/
+
+example : runOrder (fun i (x : Nat) => x + i) [0, 1, 2] (fun _ => 10) 2 = 12 := by decide
+example : runOrder (fun i (x : Nat) => x + i) [2, 0, 1] (fun _ => 10) = runOrder (fun i (x : Nat) => x + i) [0, 1, 2] (fun _ => 10) :=
+  order_independent _ _ _ (by decide) _
+
+end Pandora.C18
